@@ -95,7 +95,39 @@ def audioSplice(
         [Wav, Textgrid]
     """
 
+    # Check the arguments before anything is copied or changed
+    if (
+        spliceSegment.frameRate != audioObj.frameRate
+        or spliceSegment.sampleWidth != audioObj.sampleWidth
+    ):
+        raise errors.ArgumentError(
+            "The splice segment must have the same frame rate and sample width as "
+            f"the audio ({audioObj.frameRate} Hz, {audioObj.sampleWidth} bytes); "
+            f"it has {spliceSegment.frameRate} Hz, {spliceSegment.sampleWidth} bytes"
+        )
+
+    if insertStop is not None and insertStart > insertStop:
+        raise errors.ArgumentError(
+            f"insertStart ({insertStart}) cannot occur after insertStop ({insertStop})"
+        )
+
+    for timestamp in (insertStart, insertStop):
+        if timestamp is None:
+            continue
+        if (
+            tg.minTimestamp is None
+            or tg.maxTimestamp is None
+            or not tg.minTimestamp <= timestamp <= tg.maxTimestamp
+        ):
+            raise errors.ArgumentError(
+                f"The splice time ({timestamp}) must lie inside of the textgrid "
+                f"({tg.minTimestamp}, {tg.maxTimestamp})"
+            )
+
+    # Work on copies: the caller's audio and textgrid are left alone, also
+    # when one of the later steps raises
     retTG = tg.new()
+    audioObj = audioObj.new()
 
     # Ensure all time points involved in splicing fall on zero crossings
     if alignToZeroCrossing is True:
